@@ -26,6 +26,7 @@ HASH = re.compile(r"\bHash(?:Map|Set)\b")
 ENUM_METHODS = ["iter", "iter_mut", "keys", "values", "values_mut", "into_iter", "into_keys", "into_values",
                 "drain", "retain", "extract_if"]
 IDENT = r"[A-Za-z_][A-Za-z0-9_]*"
+ACCESSORS = "get_or_init|as_ref|as_mut|unwrap|expect|clone|borrow|borrow_mut|lock|read|write|unwrap_or_default|deref|to_owned"
 
 
 def strip_code(src):
@@ -232,7 +233,11 @@ def local_hash_names(code, fstart, fend, params, crate):
         # a call of a function / method returning a hash-ordered type, as the whole initialiser (modulo ?, .clone(), else)
         cm = re.match(r"\s*(?:&\s*)?(?:[\w:.&*()\[\]]*?[.:])?(" + IDENT + r")\s*\((?:[^()]|\([^()]*\))*\)\s*(?:\?|\.clone\(\)|\.unwrap\(\)|\.unwrap_or_default\(\))?\s*(?:else\b.*)?$",
                       init, re.S)
-        if hash_init or (cm and cm.group(1) in crate.hash_fns):
+        # an accessor chain on a hash-ordered field: `let m = self.lazy.get_or_init(..)`, `let m = &self.map;`
+        am = re.match(r"\s*(?:&\s*(?:mut\s+)?|\*\s*)*[\w.]*?\.\s*(" + IDENT + r")\s*((?:\.\s*(?:" + ACCESSORS + r")\s*\((?:[^()]|\([^()]*\))*\)\s*\??)*)\s*$",
+                      init, re.S)
+        field_init = bool(am and am.group(1) in crate.hash_fields)
+        if hash_init or field_init or (cm and cm.group(1) in crate.hash_fns):
             for ident in re.findall(IDENT, pat):
                 if ident not in ("mut", "Ok", "Some", "Err", "ref", "let"):
                     add(ident, fstart + j)
@@ -260,6 +265,12 @@ def scan_file(path, rel, code, crate):
         e = re.sub(r"^(?:&\s*mut\s+|&\s*|\*\s*)+", "", e)
         e = re.sub(r"^\(\s*(.*)\s*\)$", r"\1", e)
         e = re.sub(r"^(?:&\s*mut\s+|&\s*|\*\s*)+", "", e)
+        # accessors that hand out the same container: `f().unwrap()`, `x.lock().unwrap()`, `m.clone()`, `e?`
+        while True:
+            e2 = re.sub(r"(?:\?|\.\s*(?:" + ACCESSORS + r")\s*\((?:[^()]|\([^()]*\))*\))\s*$", "", e)
+            if e2 == e:
+                break
+            e = e2.strip()
         enc = enclosing(pos)
         names = {}
         if enc:
